@@ -48,6 +48,7 @@ import (
 	"github.com/streamingfast/substreams/wasm"
 
 	"verifharness/common"
+	"verifharness/fstore"
 )
 
 var out *common.Out
@@ -335,11 +336,16 @@ type builtIndex struct {
 
 // buildRealIndex runs the real Engine over the items (one final block per item, in the order given),
 // lets EndOfStream build + save the index file and loads it back through index.File.Load.
-func buildRealIndex(its []item, lo, hi uint64) *builtIndex {
+func buildRealIndex(its []item, lo, hi uint64, faults string) *builtIndex {
 	logger := zap.NewNop()
+	var base dstore.Store
 	base, err := dstore.NewMemoryStore(&url.URL{Scheme: "memory", Path: "/c15"}, "", "", true)
 	if err != nil {
 		panic(err)
+	}
+	if faults != "" {
+		// the first writes (output file, index file) fail transiently: index.File.Save / execout.File.Save retry them
+		base = fstore.New(base, faults, "")
 	}
 	mod := &pbsubstreams.Module{Name: indexModName, Kind: &pbsubstreams.Module_KindBlockIndex_{KindBlockIndex: &pbsubstreams.Module_KindBlockIndex{OutputType: "proto:sf.substreams.index.v1.Keys"}}}
 	hashes := manifest.NewModuleHashes()
@@ -616,9 +622,14 @@ func runEval(line string, w []string) {
 	expr := readExpr(w[1])
 	its := readItems(w[2])
 	lo, hi := segmentOf(its)
+	faults := ""
+	if len(w) > 3 { // f:<pattern>: transient write failures while the index is saved
+		faults = strings.TrimPrefix(w[3], "f:")
+		out.Count("eval:write-faults:" + faults)
+	}
 	var bi *builtIndex
 	ans, _ := common.Recover(func() string {
-		bi = buildRealIndex(its, lo, hi)
+		bi = buildRealIndex(its, lo, hi, faults)
 		return ""
 	})
 	if bi == nil {
@@ -732,7 +743,7 @@ func runSkip(line string, w []string) {
 	its := readItems(w[4])
 	slo := lo - lo%1000
 	var built *builtIndex
-	common.Recover(func() string { built = buildRealIndex(its, slo, slo+1000); return "" })
+	common.Recover(func() string { built = buildRealIndex(its, slo, slo+1000, ""); return "" })
 	if built == nil {
 		out.Case(line, "index-build-failed", false)
 		out.Fail("C15/index-build", "building, saving or loading the index failed", line)
@@ -1196,6 +1207,11 @@ func generate(o *common.Opts) {
 			}
 		}
 		runLine(fmt.Sprintf("SYS %d %s %d %d %s", sqe.MaxRecursionDeepness, common.Hex([]byte(q)), lo, hi, showItems(its)))
+	}
+	// the index saved through transient write failures (real retry loops, real back-off sleeps of 1 s, 2 s)
+	for _, pat := range []string{"a", "h", "aa", "0a"} {
+		e := g.rawExpr(g.r.Range(1, 3), false)
+		runLine("EVAL " + e + " " + showItems(g.items(20)) + " f:" + pat)
 	}
 	// hand-built expressions: the optimizer and the evaluators outside the parser's image too
 	for i := 0; i < nRaw; i++ {
